@@ -6,6 +6,7 @@ import (
 	"go/types"
 	"math/big"
 	"regexp"
+	"sort"
 	"strconv"
 	"strings"
 
@@ -1080,7 +1081,7 @@ func (fx *fnExec) runCallHooks(name string, args []SV, res SV, env *SpecEnv, whe
 		return
 	}
 	for _, h := range fx.ctr.Hooks {
-		if h.Event != "call" || !matchTarget(h.Target, name) {
+		if h.Event != "call" || !fx.matchCallSite(h.Target, name) {
 			continue
 		}
 		ne := fx.curEnv()
@@ -1139,7 +1140,7 @@ func (fx *fnExec) runBeforeCallHooks(name string, args []SV, where string) {
 		return
 	}
 	for _, h := range fx.ctr.Hooks {
-		if h.Event != "before-call" || !matchTarget(h.Target, name) {
+		if h.Event != "before-call" || !fx.matchCallSite(h.Target, name) {
 			continue
 		}
 		ne := fx.curEnv()
@@ -1255,4 +1256,50 @@ func (fx *fnExec) goType(name string) types.Type {
 		return types.NewPointer(found)
 	}
 	return found
+}
+
+var siteRe = regexp.MustCompile(`^(.*\S)\s+#(\d+)$`)
+
+// matchCallSite: target "NAME" matches every call of NAME; "NAME #k" only the k-th call site of NAME in source order.
+func (fx *fnExec) matchCallSite(target, name string) bool {
+	m := siteRe.FindStringSubmatch(target)
+	if m == nil {
+		return matchTarget(target, name)
+	}
+	if !matchTarget(m[1], name) {
+		return false
+	}
+	k, _ := strconv.Atoi(m[2])
+	return fx.curCall != nil && fx.callOrdinal(fx.curCall, name) == k
+}
+
+func (fx *fnExec) callOrdinal(c *ssa.CallCommon, name string) int {
+	type site struct {
+		pos token.Pos
+		c   *ssa.CallCommon
+	}
+	var sites []site
+	for _, b := range fx.fn.Blocks {
+		for _, in := range b.Instrs {
+			var cc *ssa.CallCommon
+			switch x := in.(type) {
+			case *ssa.Call:
+				cc = &x.Call
+			case *ssa.Defer:
+				cc = &x.Call
+			case *ssa.Go:
+				cc = &x.Call
+			}
+			if cc != nil && calleeName(cc) == name {
+				sites = append(sites, site{cc.Pos(), cc})
+			}
+		}
+	}
+	sort.Slice(sites, func(i, j int) bool { return sites[i].pos < sites[j].pos })
+	for i, s := range sites {
+		if s.c == c {
+			return i + 1
+		}
+	}
+	return 0
 }
